@@ -994,3 +994,42 @@ def par_12(ctx, rep):
                                    % (c.name, t[1] if t else '?', nt, sorted(pinned) or 'nothing'))
                 rep.ob('PAR-12', rel, f.qual, norm(v), ok, why)
     rep.minimum('PAR-12', 5)
+
+
+# ---------------------------------------------------------------------------
+# PAR-13: the engine spends no Python frame per reduction
+# ---------------------------------------------------------------------------
+def par_13(ctx, rep):
+    rep.rule('PAR-13', 'the table engine is iterative: every call cycle through BaseParser._add_token passes through an '
+                       'error_recovery method (one re-feed per error), never through the reduce / shift path itself - '
+                       'otherwise one token that completes n nested rules needs n interpreter frames and deep but valid '
+                       'sentences die with RecursionError')
+    cg = ctx.cg
+    add = ctx.prog.func(BASE, 'BaseParser._add_token')
+    recov = {k for k, f in ctx.prog.funcs.items() if f.name == 'error_recovery'}
+    # can _add_token reach itself without entering an error_recovery method?
+    seen = set()
+    todo = [t for t in cg.edges.get(add.key, ()) if t not in recov]
+    prev = {}
+    hit = None
+    while todo:
+        k = todo.pop()
+        if k == add.key:
+            hit = k
+            break
+        if k in seen:
+            continue
+        seen.add(k)
+        for t in cg.edges.get(k, ()):
+            if t not in recov and t not in seen:
+                prev.setdefault(t, k)
+                todo.append(t)
+    direct = add.key in cg.edges.get(add.key, ())
+    rep.ob('PAR-13', BASE, add.qual, 'no recursion through the shift / reduce path', not (hit or direct),
+           '_add_token can call itself without an error in between (%s): one interpreter frame per reduced rule'
+           % ('directly' if direct else 'through %s' % '%s:%s' % prev.get(add.key, ('?', '?'))))
+    # the same for the driver loop
+    parse = ctx.prog.func(BASE, 'BaseParser.parse')
+    rep.ob('PAR-13', BASE, parse.qual, 'parse does not recurse', parse.key not in cg.reachable(list(cg.edges.get(parse.key, ()))) ,
+           'the driver loop is re-entered recursively')
+    rep.minimum('PAR-13', 2)
